@@ -562,8 +562,8 @@ def run(ctx: Check, tree: Tree) -> None:
     ctx.stats["functions_reachable_from_formulate"] = len(reach)
     if len(reach) < 60:
         raise AnalysisError(f"only {len(reach)} functions reachable from formulate (call-graph resolution degraded)")
-    check_cache(ctx, tree, reach)
-    check_effects(ctx, tree, reach)
-    check_order(ctx, tree, reach)
-    check_shared_class_state(ctx, tree)
-    check_converters(ctx, tree)
+    ctx.section(check_cache, ctx, tree, reach)
+    ctx.section(check_effects, ctx, tree, reach)
+    ctx.section(check_order, ctx, tree, reach)
+    ctx.section(check_shared_class_state, ctx, tree)
+    ctx.section(check_converters, ctx, tree)
